@@ -221,6 +221,15 @@ bool comp_init(zckCtx *zck) {
                 zck->chunk_auto_max = zck->chunk_max_size;
             zck_log(ZCK_LOG_DEBUG, "Setting automatic maximum chunk size to %llu",
                     (long long unsigned) zck->chunk_auto_max);
+            /* The requested limits win over the defaults derived from the
+             * average chunk size: never leave the automatic minimum above
+             * the automatic maximum, or no chunk could ever be ended */
+            if(zck->chunk_auto_min > zck->chunk_auto_max) {
+                if(zck->chunk_auto_min > zck->chunk_max_size)
+                    zck->chunk_auto_min = zck->chunk_max_size;
+                if(zck->chunk_auto_max < zck->chunk_auto_min)
+                    zck->chunk_auto_max = zck->chunk_auto_min;
+            }
         }
     }
 
